@@ -1,6 +1,951 @@
 package main
 
-import "golang.org/x/tools/go/ssa"
+// A8 — bounds and allocation obligations.
+//
+// Enumerator: the gc compiler's prove pass (`-d=ssa/check_bce/debug=1`) lists every index/slice
+// operation it could NOT show in bounds; everything not listed is proven by the compiler (trusted
+// base). Each listed source line is mapped to the SSA index/slice instructions on that line, in
+// the functions in scope. Prover: linear facts from dominating guards, SSA definitions, library
+// postconditions, induction on phis and checked lemmas; entailment by Fourier–Motzkin.
 
-// boundsRule — A8, filled in later.
-func boundsRule(r *Run, w *World, ruleID, pkg string, scope []*ssa.Function) {}
+import (
+	"bytes"
+	"fmt"
+	"go/constant"
+	"go/token"
+	"go/types"
+	"math/big"
+	"os"
+	"os/exec"
+	"path/filepath"
+	"strconv"
+	"strings"
+
+	"golang.org/x/tools/go/ssa"
+)
+
+// ---------------------------------------------------------------------------------------------
+// enumerator
+
+type bceSite struct {
+	File string // relative to repo root
+	Line int
+	Col  int
+	Kind string
+}
+
+var bceCache = map[string][]bceSite{}
+
+func (w *World) bceSites() ([]bceSite, error) {
+	if s, ok := bceCache[w.GOARCH]; ok {
+		return s, nil
+	}
+	cmd := exec.Command("go", "build", "-gcflags=-l -d=ssa/check_bce/debug=1", "./...")
+	cmd.Dir = w.Dir
+	env := []string{}
+	for _, e := range os.Environ() {
+		k := e
+		if i := strings.IndexByte(e, '='); i >= 0 {
+			k = e[:i]
+		}
+		switch k {
+		case "GOFLAGS", "GOPROXY", "GOWORK", "CGO_ENABLED", "GOOS", "GOARCH", "GOSUMDB", "GOTOOLCHAIN":
+			continue
+		}
+		env = append(env, e)
+	}
+	cmd.Env = append(env, "GOFLAGS=-mod=mod", "GOPROXY=off", "GOWORK=off", "GOSUMDB=off", "GOTOOLCHAIN=local", "CGO_ENABLED=0", "GOOS=linux", "GOARCH="+w.GOARCH)
+	var out bytes.Buffer
+	cmd.Stdout = &out
+	cmd.Stderr = &out
+	err := cmd.Run()
+	var sites []bceSite
+	for _, line := range strings.Split(out.String(), "\n") {
+		if !strings.Contains(line, "Found Is") {
+			continue
+		}
+		parts := strings.SplitN(line, ":", 4)
+		if len(parts) < 4 {
+			continue
+		}
+		ln, _ := strconv.Atoi(parts[1])
+		col, _ := strconv.Atoi(parts[2])
+		f := filepath.Clean(parts[0])
+		sites = append(sites, bceSite{File: f, Line: ln, Col: col, Kind: strings.TrimSpace(strings.TrimPrefix(strings.TrimSpace(parts[3]), "Found "))})
+	}
+	if err != nil && len(sites) == 0 {
+		return nil, fmt.Errorf("go build (bounds-check listing) failed: %v: %s", err, firstLines(out.String(), 5))
+	}
+	if len(sites) == 0 {
+		// a warm build cache replays diagnostics; an empty listing for this repository means the flag was not honoured
+		return nil, fmt.Errorf("bounds-check listing is empty (compiler diagnostics not produced)")
+	}
+	bceCache[w.GOARCH] = sites
+	return sites, nil
+}
+
+func firstLines(s string, n int) string {
+	l := strings.Split(s, "\n")
+	if len(l) > n {
+		l = l[:n]
+	}
+	return strings.Join(l, " | ")
+}
+
+// ---------------------------------------------------------------------------------------------
+// memory stability
+
+func aliasClass(in ssa.Instruction) string {
+	switch x := in.(type) {
+	case *ssa.UnOp:
+		switch a := x.X.(type) {
+		case *ssa.FieldAddr:
+			return "field:" + fieldOfAddr(a).Name()
+		case *ssa.IndexAddr:
+			return "elem"
+		case *ssa.Alloc:
+			return fmt.Sprintf("local:%p", a)
+		case *ssa.Global:
+			return "global:" + a.Name()
+		}
+		return "any"
+	case *ssa.Lookup:
+		if _, isMap := x.X.Type().Underlying().(*types.Map); isMap {
+			return "mapelem"
+		}
+		return "pure"
+	}
+	return "any"
+}
+
+var pureExternalPkgs = map[string]bool{"strings": true, "strconv": true, "bytes": true, "fmt": true, "errors": true, "os/user": true, "math": true,
+	"unicode": true, "unicode/utf8": true, "encoding/hex": true, "net": true, "time": true, "regexp": true, "path/filepath": true, "os": true, "runtime": true,
+	"golang.org/x/sys/unix": true, "syscall": true}
+
+type storeSummary map[string]bool // alias classes a function may store to ("all" = anything)
+
+var storeSummaries = map[*ssa.Function]storeSummary{}
+
+func (w *World) storesOfFn(fn *ssa.Function, depth int) storeSummary {
+	if s, ok := storeSummaries[fn]; ok {
+		return s
+	}
+	s := storeSummary{}
+	storeSummaries[fn] = s // cycle guard
+	if depth > 6 {
+		s["all"] = true
+		return s
+	}
+	instrsOf(fn, func(in ssa.Instruction) {
+		switch x := in.(type) {
+		case *ssa.Store:
+			switch a := x.Addr.(type) {
+			case *ssa.FieldAddr:
+				s["field:"+fieldOfAddr(a).Name()] = true
+			case *ssa.IndexAddr:
+				s["elem"] = true
+			case *ssa.Alloc:
+				// callee-local
+				_ = a
+			case *ssa.Global:
+				s["global:"+a.Name()] = true
+			default:
+				s["all"] = true
+			}
+		case *ssa.MapUpdate:
+			s["mapelem"] = true
+		case ssa.CallInstruction:
+			for c := range w.callEffects(x, depth+1) {
+				s[c] = true
+			}
+		}
+	})
+	return s
+}
+
+func (w *World) callEffects(ci ssa.CallInstruction, depth int) storeSummary {
+	cc := ci.Common()
+	out := storeSummary{}
+	if b, ok := cc.Value.(*ssa.Builtin); ok {
+		switch b.Name() {
+		case "copy", "clear":
+			out["elem"] = true
+			out["mapelem"] = true
+		case "delete":
+			out["mapelem"] = true
+		}
+		return out
+	}
+	callee := cc.StaticCallee()
+	if callee == nil {
+		out["all"] = true
+		return out
+	}
+	if w.isRepoFn(callee) && len(callee.Blocks) > 0 {
+		return w.storesOfFn(callee, depth)
+	}
+	pkg := ""
+	if callee.Pkg != nil {
+		pkg = callee.Pkg.Pkg.Path()
+	} else if callee.Object() != nil && callee.Object().Pkg() != nil {
+		pkg = callee.Object().Pkg().Path()
+	}
+	if pkg == "sort" {
+		out["elem"] = true
+		return out
+	}
+	if pureExternalPkgs[pkg] {
+		return out
+	}
+	out["all"] = true
+	return out
+}
+
+func (w *World) mayModify(in ssa.Instruction, class string) bool {
+	if class == "pure" {
+		return false
+	}
+	var eff storeSummary
+	switch x := in.(type) {
+	case *ssa.Store:
+		eff = storeSummary{}
+		switch a := x.Addr.(type) {
+		case *ssa.FieldAddr:
+			eff["field:"+fieldOfAddr(a).Name()] = true
+		case *ssa.IndexAddr:
+			eff["elem"] = true
+		case *ssa.Alloc:
+			eff[fmt.Sprintf("local:%p", a)] = true
+		case *ssa.Global:
+			eff["global:"+a.Name()] = true
+		default:
+			eff["all"] = true
+		}
+	case *ssa.MapUpdate:
+		eff = storeSummary{"mapelem": true}
+	case ssa.CallInstruction:
+		eff = w.callEffects(x, 0)
+	default:
+		return false
+	}
+	if eff["all"] {
+		return true
+	}
+	if class == "any" {
+		return len(eff) > 0
+	}
+	return eff[class]
+}
+
+// stableBetween: no instruction on any path from `first` to `second` may modify the class.
+// Requires first to dominate second (or be in the same block before it).
+func (w *World) stableBetween(first, second ssa.Instruction, class string) bool {
+	if first == second {
+		return true
+	}
+	b1, b2 := first.Block(), second.Block()
+	if b1.Parent() != b2.Parent() {
+		return false
+	}
+	idx := func(in ssa.Instruction) int {
+		for i, x := range in.Block().Instrs {
+			if x == in {
+				return i
+			}
+		}
+		return -1
+	}
+	// reachability sets
+	fwd := map[*ssa.BasicBlock]bool{}
+	var walkF func(b *ssa.BasicBlock)
+	walkF = func(b *ssa.BasicBlock) {
+		for _, s := range b.Succs {
+			if !fwd[s] {
+				fwd[s] = true
+				walkF(s)
+			}
+		}
+	}
+	walkF(b1)
+	bwd := map[*ssa.BasicBlock]bool{}
+	var walkB func(b *ssa.BasicBlock)
+	walkB = func(b *ssa.BasicBlock) {
+		for _, p := range b.Preds {
+			if !bwd[p] {
+				bwd[p] = true
+				walkB(p)
+			}
+		}
+	}
+	walkB(b2)
+	if b1 == b2 && idx(first) < idx(second) && !(fwd[b1] && bwd[b1]) {
+		for _, in := range b1.Instrs[idx(first)+1 : idx(second)] {
+			if w.mayModify(in, class) {
+				return false
+			}
+		}
+		return true
+	}
+	if !(b1 == b2 || b1.Dominates(b2)) {
+		return false
+	}
+	check := func(ins []ssa.Instruction) bool {
+		for _, in := range ins {
+			if w.mayModify(in, class) {
+				return false
+			}
+		}
+		return true
+	}
+	for _, b := range b1.Parent().Blocks {
+		switch {
+		case b == b1 && b == b2:
+			// same block but in a cycle: everything counts
+			if !check(b.Instrs) {
+				return false
+			}
+		case b == b1:
+			if fwd[b1] && bwd[b1] {
+				if !check(b.Instrs) {
+					return false
+				}
+			} else if !check(b.Instrs[idx(first)+1:]) {
+				return false
+			}
+		case b == b2:
+			if fwd[b2] && bwd[b2] {
+				if !check(b.Instrs) {
+					return false
+				}
+			} else if !check(b.Instrs[:idx(second)]) {
+				return false
+			}
+		case fwd[b] && bwd[b]:
+			if !check(b.Instrs) {
+				return false
+			}
+		}
+	}
+	return true
+}
+
+// ---------------------------------------------------------------------------------------------
+// prover
+
+type atomInst struct {
+	name  string
+	loads []ssa.Instruction
+}
+
+type prover struct {
+	w      *World
+	fn     *ssa.Function
+	site   ssa.Instruction
+	insts  map[string][]*atomInst
+	facts  []Fact
+	done   map[string]bool // intrinsic facts already added, by atom name
+	cache  map[ssa.Value]Lin
+	lemmas map[string]bool // lemma names used
+	depth  int
+	phis   map[string]*ssa.Phi // atom name → phi
+	calls  map[string]*ssa.Call
+	vals   map[string]ssa.Value
+	notes  []string
+	inInd  map[*ssa.Phi]bool
+	neqs   []neq
+	conds  []condPost // conditional postconditions: when `when >= 0` is entailed, `then` hold
+
+	foundLookups map[*ssa.Lookup]bool
+	depthSum     int
+	inv          []Fact // facts established by induction, kept across rounds
+	pairs        map[pairKey]string
+	fieldAtoms   map[string]map[string]fieldAtom
+	failed       []Lin
+	tried        map[*ssa.Phi]bool
+	containers   []ssa.Value
+	atomFacts    map[string][]Fact // intrinsic facts of atoms, re-added with the invariants that mention them
+}
+
+type condPost struct {
+	when Lin
+	then []Fact
+	done bool
+}
+
+func newProver(w *World, fn *ssa.Function, site ssa.Instruction) *prover {
+	return &prover{w: w, fn: fn, site: site, insts: map[string][]*atomInst{}, done: map[string]bool{}, cache: map[ssa.Value]Lin{},
+		lemmas: map[string]bool{}, phis: map[string]*ssa.Phi{}, calls: map[string]*ssa.Call{}, vals: map[string]ssa.Value{}, inInd: map[*ssa.Phi]bool{},
+		foundLookups: map[*ssa.Lookup]bool{}}
+}
+
+func (p *prover) add(f Fact) { p.facts = append(p.facts, f) }
+
+var big56 = int64(1) << 56
+
+func intSize(w *World, t types.Type) (bits int64, unsigned bool, ok bool) {
+	b, isB := t.Underlying().(*types.Basic)
+	if !isB || b.Info()&types.IsInteger == 0 {
+		return 0, false, false
+	}
+	return w.Sizes.Sizeof(b) * 8, b.Info()&types.IsUnsigned != 0, true
+}
+
+var pureCallees = map[string]bool{"len": true, "cap": true, "strings.Index": true, "strings.IndexByte": true, "strings.IndexRune": true, "strings.IndexFunc": true,
+	"strings.LastIndex": true, "bytes.Index": true, "bytes.IndexByte": true, "encoding/hex.DecodedLen": true, "strings.TrimSpace": true, "strings.ToUpper": true,
+	"strings.ToLower": true, "strings.Trim": true, "strings.HasPrefix": true, "strings.HasSuffix": true, "strings.SplitN": true, "strings.Split": true,
+	"strings.Fields": true, "(*regexp.Regexp).FindStringSubmatchIndex": true, "(*regexp.Regexp).FindAllStringSubmatch": true, "(*regexp.Regexp).FindStringSubmatch": true}
+
+// memLoads lists the memory-dependent instructions a value is computed from (loads, map lookups,
+// calls to functions that are not pure).
+func memLoads(v ssa.Value) []ssa.Instruction {
+	var ins []ssa.Instruction
+	leafInstrs(v, map[ssa.Value]bool{}, &ins)
+	var out []ssa.Instruction
+	for _, in := range ins {
+		switch x := in.(type) {
+		case *ssa.UnOp:
+			if x.Op == token.MUL {
+				out = append(out, x)
+			}
+		case *ssa.Lookup:
+			if _, isMap := x.X.Type().Underlying().(*types.Map); isMap {
+				out = append(out, x)
+			}
+		case *ssa.Call:
+			if !pureCallees[calleeName(x)] {
+				out = append(out, x)
+			}
+		case *ssa.Next:
+			out = append(out, x)
+		}
+	}
+	return out
+}
+
+// atomName returns the atom for value v with term t, merging with an existing instance when every
+// memory load it depends on is stable with respect to that instance.
+func (p *prover) atomName(v ssa.Value, t string) string {
+	loads := memLoads(v)
+	for _, inst := range p.insts[t] {
+		if len(inst.loads) != len(loads) {
+			continue
+		}
+		ok := true
+		for i := range loads {
+			a, b := inst.loads[i], loads[i]
+			if a == b {
+				continue
+			}
+			if _, isCall := a.(*ssa.Call); isCall {
+				ok = false // different calls of an impure function
+				break
+			}
+			if _, isNext := a.(*ssa.Next); isNext {
+				ok = false
+				break
+			}
+			cls := aliasClass(a)
+			if aliasClass(b) != cls {
+				ok = false
+				break
+			}
+			if !(p.w.stableBetween(a, b, cls) || p.w.stableBetween(b, a, cls)) {
+				ok = false
+				break
+			}
+		}
+		if ok {
+			return inst.name
+		}
+	}
+	name := t
+	if n := len(p.insts[t]); n > 0 {
+		name = fmt.Sprintf("%s#%d", t, n+1)
+	}
+	p.insts[t] = append(p.insts[t], &atomInst{name: name, loads: loads})
+	p.vals[name] = v
+	return name
+}
+
+// lin linearises an integer SSA value.
+func (p *prover) lin(v ssa.Value) Lin {
+	if l, ok := p.cache[v]; ok {
+		return l
+	}
+	l := p.lin0(v)
+	p.cache[v] = l
+	return l
+}
+
+func (p *prover) opaque(v ssa.Value) Lin {
+	name := p.atomName(v, Term(v))
+	if !p.done[name] {
+		p.done[name] = true
+		if _, unsigned, ok := intSize(p.w, v.Type()); ok && unsigned {
+			p.add(Fact{linAtom(name), "unsigned " + name})
+			if bits, _, _ := intSize(p.w, v.Type()); bits <= 32 {
+				p.add(leq(linAtom(name), linConst(int64(1)<<uint(bits)-1), "width of "+name))
+			}
+		} else if bits, _, ok := intSize(p.w, v.Type()); ok && bits <= 32 {
+			p.add(geq(linAtom(name), linConst(-(int64(1) << uint(bits-1))), "width of "+name))
+			p.add(leq(linAtom(name), linConst(int64(1)<<uint(bits-1)-1), "width of "+name))
+		}
+		if phi, ok := v.(*ssa.Phi); ok {
+			p.phis[name] = phi
+		}
+		if ex, ok := v.(*ssa.Extract); ok {
+			if c, ok := ex.Tuple.(*ssa.Call); ok {
+				p.callPost(name, c, ex.Index)
+			}
+		}
+		if c, ok := v.(*ssa.Call); ok {
+			p.callPost(name, c, 0)
+		}
+		p.loadLemmas(name, v)
+	}
+	return linAtom(name)
+}
+
+func (p *prover) lin0(v ssa.Value) Lin {
+	p.depth++
+	defer func() { p.depth-- }()
+	if p.depth > 60 {
+		return p.opaque(v)
+	}
+	switch x := v.(type) {
+	case *ssa.Const:
+		if n, ok := constInt(x); ok {
+			return linConst(n)
+		}
+		return p.opaque(v)
+	case *ssa.ChangeType:
+		return p.lin(x.X)
+	case *ssa.Convert:
+		sb, su, ok1 := intSize(p.w, x.X.Type())
+		db, du, ok2 := intSize(p.w, x.Type())
+		if !ok1 || !ok2 {
+			return p.opaque(v)
+		}
+		src := p.lin(x.X)
+		switch {
+		case su && db > sb: // unsigned widening (to signed or unsigned)
+			return src
+		case !su && !du && db >= sb: // signed widening
+			return src
+		case su && du && db >= sb:
+			return src
+		case su && !du && db == sb:
+			// e.g. uint→int of equal width: value-preserving for values < 2^(n-1)
+			if p.provable(leq(src, linConst(int64(1)<<uint(min64(db-1, 62))-1), "")) {
+				return src
+			}
+		case !su && du:
+			// signed → unsigned: value-preserving when non-negative (and it fits)
+			if p.provable(Fact{src, ""}) && (db >= sb || p.provable(leq(src, linConst(int64(1)<<uint(min64(db, 62))-1), ""))) {
+				return src
+			}
+		}
+		// narrowing / unknown: 0 <= conv(x) <= x for unsigned results of non-negative sources
+		o := p.opaque(v)
+		if du && p.provable(Fact{src, ""}) {
+			p.add(leq(o, src, "truncation only shrinks a non-negative value"))
+			if db < 63 && p.provable(leq(src, linConst(int64(1)<<uint(db)-1), "")) {
+				p.add(geq(o, src, "value fits the narrower type"))
+			}
+		}
+		return o
+	case *ssa.BinOp:
+		bits, unsigned, ok := intSize(p.w, x.Type())
+		if !ok {
+			return p.opaque(v)
+		}
+		isInt := false
+		if b, isB := x.Type().Underlying().(*types.Basic); isB && (b.Kind() == types.Int || b.Kind() == types.UntypedInt) {
+			isInt = true
+		}
+		var res Lin
+		have := false
+		switch x.Op {
+		case token.ADD:
+			res, have = p.lin(x.X).add(p.lin(x.Y)), true
+		case token.SUB:
+			res, have = p.lin(x.X).sub(p.lin(x.Y)), true
+		case token.MUL:
+			a, b := p.lin(x.X), p.lin(x.Y)
+			if a.isConst() {
+				res, have = b.scale(a.K), true
+			} else if b.isConst() {
+				res, have = a.scale(b.K), true
+			}
+		case token.SHL:
+			b := p.lin(x.Y)
+			if b.isConst() && b.K.IsInt() && b.K.Num().Int64() >= 0 && b.K.Num().Int64() < 60 {
+				res, have = p.lin(x.X).scale(ratInt(int64(1)<<uint(b.K.Num().Int64()))), true
+			}
+		case token.QUO, token.SHR:
+			b := p.lin(x.Y)
+			var c int64
+			if b.isConst() && b.K.IsInt() {
+				c = b.K.Num().Int64()
+				if x.Op == token.SHR {
+					if c >= 0 && c < 60 {
+						c = int64(1) << uint(c)
+					} else {
+						c = 0
+					}
+				}
+			}
+			a := p.lin(x.X)
+			if c > 0 && p.provable(Fact{a, ""}) {
+				q := p.opaque(v)
+				// c*q <= a <= c*q + (c-1)
+				p.add(leq(q.scale(ratInt(c)), a, "floor division"))
+				p.add(leq(a, q.scale(ratInt(c)).addK(c-1), "floor division"))
+				p.add(Fact{q, "quotient of non-negative"})
+				return q
+			}
+		case token.REM, token.AND:
+			b := p.lin(x.Y)
+			a := p.lin(x.X)
+			if b.isConst() && b.K.IsInt() {
+				c := b.K.Num().Int64()
+				if x.Op == token.AND {
+					// x & mask: 0 <= r <= mask (mask >= 0), r <= x for x >= 0
+					if c >= 0 {
+						r := p.opaque(v)
+						p.add(Fact{r, "masking"})
+						p.add(leq(r, linConst(c), "masking"))
+						return r
+					}
+				} else if c > 0 && p.provable(Fact{a, ""}) {
+					r := p.opaque(v)
+					p.add(Fact{r, "remainder of non-negative"})
+					p.add(leq(r, linConst(c-1), "remainder"))
+					p.add(leq(r, a, "remainder <= dividend"))
+					return r
+				}
+			}
+		}
+		if !have {
+			return p.opaque(v)
+		}
+		// wrap check
+		if isInt {
+			return res // assumption: `int` arithmetic on lengths/indices does not overflow
+		}
+		lo, hi := int64(0), int64(0)
+		if unsigned {
+			lo = 0
+			hi = int64(1)<<uint(min64(bits, 62)) - 1
+		} else {
+			lo = -(int64(1) << uint(min64(bits-1, 62)))
+			hi = int64(1)<<uint(min64(bits-1, 62)) - 1
+		}
+		if p.provable(geq(res, linConst(lo), "")) && p.provable(leq(res, linConst(hi), "")) {
+			return res
+		}
+		if os.Getenv("VCHECK_BOUNDS_DEBUG") == "2" {
+			fmt.Fprintf(os.Stderr, "  WRAP? %s : res=%s lo=%d hi=%d facts=%d\n", Term(v), res, lo, hi, len(p.facts))
+			for _, f := range p.relevant(res) {
+				fmt.Fprintf(os.Stderr, "        rel %s\n", f)
+			}
+		}
+		return p.opaque(v) // may wrap: opaque
+	case *ssa.Call:
+		switch calleeName(x) {
+		case "len", "cap":
+			return p.lenOf(x.Call.Args[0])
+		case "encoding/hex.DecodedLen":
+			a := p.lin(x.Call.Args[0])
+			if p.provable(Fact{a, ""}) {
+				q := p.opaque(v)
+				p.add(leq(q.scale(ratInt(2)), a, "DecodedLen = n/2"))
+				p.add(leq(a, q.scale(ratInt(2)).addK(1), "DecodedLen = n/2"))
+				return q
+			}
+		}
+		return p.opaque(v)
+	case *ssa.UnOp:
+		if x.Op == token.SUB {
+			return p.lin(x.X).neg()
+		}
+		return p.opaque(v)
+	case *ssa.Phi:
+		// all edges equal?
+		return p.opaque(v)
+	}
+	return p.opaque(v)
+}
+
+func ratInt(n int64) *big.Rat { return big.NewRat(n, 1) }
+
+func min64(a, b int64) int64 {
+	if a < b {
+		return a
+	}
+	return b
+}
+
+// lenOf linearises len(x).
+func (p *prover) lenOf(x ssa.Value) Lin {
+	switch y := x.(type) {
+	case *ssa.Const:
+		if y.Value != nil && y.Value.Kind() == constant.String {
+			return linConst(int64(len(constant.StringVal(y.Value))))
+		}
+		if y.Value == nil {
+			return linConst(0)
+		}
+	case *ssa.Slice:
+		var base Lin
+		if pt, ok := y.X.Type().Underlying().(*types.Pointer); ok {
+			if at, ok := pt.Elem().Underlying().(*types.Array); ok {
+				base = linConst(at.Len())
+			} else {
+				base = p.lenAtom(y.X)
+			}
+		} else {
+			base = p.lenOf(y.X)
+		}
+		hi := base
+		if y.High != nil {
+			hi = p.lin(y.High)
+		}
+		lo := linConst(0)
+		if y.Low != nil {
+			lo = p.lin(y.Low)
+		}
+		return hi.sub(lo)
+	case *ssa.MakeSlice:
+		return p.lin(y.Len)
+	case *ssa.ChangeType:
+		return p.lenOf(y.X)
+	case *ssa.Convert:
+		// string <-> []byte keeps the length; string(rune) etc. do not
+		_, s1 := y.X.Type().Underlying().(*types.Slice)
+		b1, isB1 := y.X.Type().Underlying().(*types.Basic)
+		_, s2 := y.Type().Underlying().(*types.Slice)
+		b2, isB2 := y.Type().Underlying().(*types.Basic)
+		str1 := isB1 && b1.Info()&types.IsString != 0
+		str2 := isB2 && b2.Info()&types.IsString != 0
+		if (s1 && str2) || (str1 && s2) || (str1 && str2) {
+			return p.lenOf(y.X)
+		}
+	case *ssa.BinOp:
+		if y.Op == token.ADD {
+			if b, ok := y.Type().Underlying().(*types.Basic); ok && b.Info()&types.IsString != 0 {
+				return p.lenOf(y.X).add(p.lenOf(y.Y))
+			}
+		}
+	case *ssa.Call:
+		switch calleeName(y) {
+		case "append":
+			// len(append(s, e...)) = len(s) + n for explicit elements
+			base, elems, spread, ok := appendParts(y)
+			if ok && spread == nil {
+				return p.lenOf(base).addK(int64(len(elems)))
+			}
+			if ok && spread != nil {
+				return p.lenOf(base).add(p.lenOf(spread))
+			}
+		}
+	}
+	if at, ok := x.Type().Underlying().(*types.Array); ok {
+		return linConst(at.Len())
+	}
+	return p.lenAtom(x)
+}
+
+func (p *prover) lenAtom(x ssa.Value) Lin {
+	name := p.atomName(x, "len("+Term(x)+")")
+	if !p.done[name] {
+		p.done[name] = true
+		f1 := Fact{linAtom(name), "length is non-negative"}
+		f2 := leq(linAtom(name), linConst(big56), "address-space bound on lengths")
+		p.add(f1)
+		p.add(f2)
+		if p.atomFacts == nil {
+			p.atomFacts = map[string][]Fact{}
+		}
+		p.atomFacts[name] = []Fact{f1, f2}
+		p.lenLemmas(name, x)
+	}
+	return linAtom(name)
+}
+
+// provable: current facts entail f (used for side conditions while linearising; guards must
+// already have been collected for it to be useful, so the goal is linearised *after* guards).
+func (p *prover) provable(f Fact) bool {
+	if f.E.isConst() {
+		return f.E.K.Sign() >= 0
+	}
+	return entails(p.relevant(f.E), f.E)
+}
+
+// relevant selects the facts connected to the goal's atoms (transitively).
+func (p *prover) relevant(goal Lin) []Fact {
+	atoms := map[string]bool{}
+	for a := range goal.C {
+		atoms[a] = true
+	}
+	used := make([]bool, len(p.facts))
+	for changed := true; changed; {
+		changed = false
+		for i, f := range p.facts {
+			if used[i] {
+				continue
+			}
+			hit := false
+			for a := range f.E.C {
+				if atoms[a] {
+					hit = true
+				}
+			}
+			if hit {
+				used[i] = true
+				changed = true
+				for a := range f.E.C {
+					atoms[a] = true
+				}
+			}
+		}
+	}
+	var out []Fact
+	for i, f := range p.facts {
+		if used[i] {
+			out = append(out, f)
+		}
+	}
+	if len(out) > 60 {
+		out = out[:60]
+	}
+	return out
+}
+
+// ---------------------------------------------------------------------------------------------
+// guards
+
+func impliedConds(cond ssa.Value, pol bool) []Guard {
+	out := []Guard{{Cond: cond, Pol: pol}}
+	for {
+		if u, ok := cond.(*ssa.UnOp); ok && u.Op == token.NOT {
+			cond = u.X
+			pol = !pol
+			continue
+		}
+		break
+	}
+	phi, ok := cond.(*ssa.Phi)
+	if !ok {
+		return out
+	}
+	var implied []Guard
+	nonConst := 0
+	var nc ssa.Value
+	for i, e := range phi.Edges {
+		c, isConst := e.(*ssa.Const)
+		if isConst && c.Value != nil && c.Value.Kind() == constant.Bool {
+			if constant.BoolVal(c.Value) == pol {
+				return out
+			}
+			pred := phi.Block().Preds[i]
+			if ifi, ok := pred.Instrs[len(pred.Instrs)-1].(*ssa.If); ok {
+				side := pred.Succs[0] == phi.Block()
+				implied = append(implied, impliedConds(ifi.Cond, !side)...)
+			}
+		} else {
+			nonConst++
+			nc = e
+		}
+	}
+	if nonConst == 1 && len(implied) > 0 {
+		implied = append(implied, impliedConds(nc, pol)...)
+	}
+	return append(out, implied...)
+}
+
+func (p *prover) addGuards(b *ssa.BasicBlock) {
+	gs := GuardsAt(b)
+	// outermost first, so that side conditions of inner guards (non-negativity, no wrap) can
+	// already use the outer ones
+	for i := len(gs) - 1; i >= 0; i-- {
+		for _, g := range impliedConds(gs[i].Cond, gs[i].Pol) {
+			p.addCond(g.Cond, g.Pol, "guard "+Lit(g.Cond, g.Pol))
+		}
+	}
+}
+
+func (p *prover) addCond(cond ssa.Value, pol bool, why string) {
+	for {
+		if u, ok := cond.(*ssa.UnOp); ok && u.Op == token.NOT {
+			cond = u.X
+			pol = !pol
+			continue
+		}
+		break
+	}
+	switch c := cond.(type) {
+	case *ssa.BinOp:
+		if _, _, ok := intSize(p.w, c.X.Type()); !ok {
+			return
+		}
+		op := c.Op
+		if !pol {
+			op = negCmp(op)
+		}
+		a, b := p.lin(c.X), p.lin(c.Y)
+		switch op {
+		case token.LSS:
+			p.add(ltI(a, b, why))
+		case token.LEQ:
+			p.add(leq(a, b, why))
+		case token.GTR:
+			p.add(gtI(a, b, why))
+		case token.GEQ:
+			p.add(geq(a, b, why))
+		case token.EQL:
+			p.add(leq(a, b, why))
+			p.add(geq(a, b, why))
+		case token.NEQ:
+			// integers: tighten a bound that is already known to be attained at most here
+			d := a.sub(b)
+			if p.provable(Fact{d, ""}) { // a >= b and a != b  ⇒ a >= b+1
+				p.add(Fact{d.addK(-1), why + " (≠ tightens ≥)"})
+			} else if p.provable(Fact{d.neg(), ""}) {
+				p.add(Fact{d.neg().addK(-1), why + " (≠ tightens ≤)"})
+			} else {
+				p.neqs = append(p.neqs, neq{d, why})
+			}
+		}
+	case *ssa.Call:
+		n := calleeName(c)
+		if (n == "strings.HasPrefix" || n == "strings.HasSuffix" || n == "bytes.HasPrefix") && pol {
+			p.add(geq(p.lenOf(c.Call.Args[0]), p.lenOf(c.Call.Args[1]), why))
+		}
+	case *ssa.Extract:
+		// comma-ok of a map lookup: has(m, k) — used by the map-of-range-indices lemma
+		if lk, ok := c.Tuple.(*ssa.Lookup); ok && c.Index == 1 && pol {
+			p.foundLookups[lk] = true
+		}
+	}
+}
+
+type neq struct {
+	d   Lin
+	why string
+}
+
+// retryNeqs applies pending disequalities once more bounds are known.
+func (p *prover) retryNeqs() {
+	var rest []neq
+	for _, n := range p.neqs {
+		if p.provable(Fact{n.d, ""}) {
+			p.add(Fact{n.d.addK(-1), n.why + " (≠ tightens ≥)"})
+		} else if p.provable(Fact{n.d.neg(), ""}) {
+			p.add(Fact{n.d.neg().addK(-1), n.why + " (≠ tightens ≤)"})
+		} else {
+			rest = append(rest, n)
+		}
+	}
+	p.neqs = rest
+}
